@@ -10,6 +10,9 @@ emsarray returns for the same dataset, so a mistake of the translator shows up a
       (`<rings> M=<mask> B=<bbox> W=<warned>`), the raw polygons coming from the generated term
 `pipe mid vals=<numbers>`            →  `a:b,a:b,…` (derived bounds of a 1-D axis) or `ERR`
 `pipe centres lon=<numbers> lat=<numbers>`  →  `x,y;x,y;…`
+`pipe cf2dderived ny=<n> nx=<n> vals=<ny*nx numbers, - = NaN>`  →  `ny,nx,4:<the values in C order, - = NaN>`
+      (derived bounds of one coordinate of a CF 2-D grid) or `ERR`
+(`pipe cmask …`, the masks of `c_mask_from_centres`, is an operation of the C07 driver.)
 -/
 namespace Ems.NpProto
 open Ems Ems.Proto Ems.GeomProto
@@ -62,8 +65,20 @@ def showPairsArr (a : NpArr) : String :=
   | some ps => joinWith "," (ps.map fun p => s!"{showOptRat p.1}:{showOptRat p.2}")
   | none => "ERR"
 
+/-- an array as `d0,d1,…:v,v,…` (C order, `-` = NaN) -/
+def showArr (a : NpArr) : String :=
+  s!"{joinWith "," (a.shape.map toString)}:{joinWith "," (a.data.map showOptRat)}"
+
 def stepPipe (ws : List String) : String :=
   match ws with
+  | "cf2dderived" :: args =>
+    match (kv args "ny").bind parseNat?, (kv args "nx").bind parseNat?, (kv args "vals").bind parseOptRats? with
+    | some ny, some nx, some vals =>
+      if vals.length ≠ ny * nx ∨ ny = 0 ∨ nx = 0 then "BAD" else
+      match eval (derived2dEnv (chunk nx vals) nx) Gen.cf2dDerivedBounds with
+      | some a => showArr a
+      | none => "ERR"
+    | _, _, _ => "BAD"
   | "mid" :: args =>
     match (kv args "vals").bind parseRats? with
     | none => "BAD"
